@@ -23,6 +23,9 @@ type L struct{}
 func (l *L) Get() string  { return "l" }
 func (l *L) Put(s string) { println(s) }
 
+// PutAll is not a method of lib.Putter.
+func (l *L) PutAll(s string) { println(s, s) }
+
 func getter() lib.Getter {
 	if sel > 0 {
 		return &lib.G{}
@@ -165,6 +168,18 @@ func b11() {
 	lib.Store(x)
 }
 
+func b12() {
+	x := source2()
+	l := &L{}
+	l.Put(x)
+}
+
+func b13() {
+	x := source2()
+	l := &L{}
+	l.PutAll(x)
+}
+
 // ---- locations
 
 func e1() {
@@ -200,6 +215,8 @@ func main() {
 	b9()
 	b10()
 	b11()
+	b12()
+	b13()
 	e1()
 	e3()
 	_ = never
